@@ -123,6 +123,11 @@ def jsonable(x):
     return repr(x)
 
 
+def _kmatch(k, fk):
+    import re
+    return k.get('key') == fk or bool(k.get('key_regex') and re.fullmatch(k['key_regex'], fk))
+
+
 def load_known():
     p = os.path.join(env.VERIF, 'known_findings.json')
     if not os.path.exists(p):
@@ -196,7 +201,7 @@ def run_property(prop, tier='quick', replay=None):
             path = write_replay('obligation-%d' % n_ref, payload)
             reproduced = bool(rp and rp.get('reproduced'))
             fk = 'obligation:' + o.meta.get('base', o.name)
-            hit = [k for k in known if k.get('key') == fk]
+            hit = [k for k in known if _kmatch(k, fk)]
             if hit:
                 known_hits.append((hit[0], o.name))
                 continue
@@ -240,7 +245,7 @@ def run_property(prop, tier='quick', replay=None):
                         if ok:
                             continue
                         fk = prop.finding_key(case, clause, detail)
-                        hit = [k for k in known if k.get('key') == fk]
+                        hit = [k for k in known if _kmatch(k, fk)]
                         if hit:
                             known_hits.append((hit[0], fk))
                             continue
@@ -261,9 +266,10 @@ def run_property(prop, tier='quick', replay=None):
         out_lines.append('UNDECIDED property=%s obligation=%s reason=%s' % (pid, u['obligation'], u['reason'].splitlines()[0][:200]))
     seen_known = set()
     for k, what in known_hits:
-        if k['key'] not in seen_known:
-            seen_known.add(k['key'])
-            out_lines.append('KNOWN-FINDING: property=%s %s' % (pid, k.get('what', k['key'])))
+        kk = k.get('key') or k.get('key_regex')
+        if kk not in seen_known:
+            seen_known.add(kk)
+            out_lines.append('KNOWN-FINDING: property=%s %s' % (pid, k.get('what', kk)))
     for v in violations:
         line = 'VIOLATION property=%s replay=%s' % (pid, v['replay'])
         if not v['reproduced']:
